@@ -6,8 +6,10 @@ import (
 	"fmt"
 	"os"
 
+	"verifharness/internal/c01"
 	"verifharness/internal/c04"
 	"verifharness/internal/c06"
+	"verifharness/internal/c07"
 	"verifharness/internal/c08"
 	"verifharness/internal/c09"
 	"verifharness/internal/c14"
@@ -16,6 +18,7 @@ import (
 	"verifharness/internal/c17"
 	"verifharness/internal/c18"
 	"verifharness/internal/c19"
+	"verifharness/internal/c20"
 	"verifharness/internal/common"
 )
 
@@ -23,7 +26,10 @@ type sub func(tier string, seed int64, outDir string) *common.Meta
 
 var subs = map[string]sub{
 	"c04": c04.Run,
+	"c01": c01.Run,
 	"c06": c06.Run,
+	"c07": c07.Run,
+	"c20": c20.Run,
 	"c08": c08.Run,
 	"c09": c09.Run,
 	"c14": c14.Run,
